@@ -20,6 +20,10 @@ class Crash(BaseException):
     """the process died (SIGKILL) — nothing after this point has any effect"""
 
 
+class WouldBlock(Exception):
+    """soft mode: the caller would wait (lock busy / sleeping) -- reported to the obligation instead of aborting the path"""
+
+
 class Spin(PathEnd):
     """a retry loop exceeded its modelled bound (legal prefix: still waiting)"""
 
@@ -403,6 +407,9 @@ class BaseWorld:
         """a BEGIN met the write lock held by a suspended client: a retrying caller would wait for ever in a
         well-nested schedule -- cut after 2 spins ("still waiting" is a legal prefix)"""
         self.spins = getattr(self, 'spins', 0) + 1
+        if self.spins > 2 and getattr(self, 'soft_block', False):
+            self.spins = 0
+            raise WouldBlock()
         if self.spins > 2:
             ex = Ctx.cur
             if ex is not None:
@@ -530,6 +537,9 @@ class World(BaseWorld):
 
     def sleep(self, d):
         self.sleeps += 1
+        if self.sleeps > self.max_sleeps and getattr(self, 'soft_block', False):
+            self.sleeps = 0
+            raise WouldBlock()
         if self.sleeps > self.max_sleeps:
             ex = Ctx.cur
             if ex is not None:
